@@ -211,7 +211,8 @@ func appendHTMLString(buf []byte, s string) []byte {
 			}
 		}
 		for i := len(chunks) * 8; i < valLen; i++ {
-			if needEscapeHTML[s[i]] {
+			// 0xE2 may start U+2028 or U+2029
+			if needEscapeHTML[s[i]] || s[i] == 0xE2 {
 				j = i
 				goto ESCAPE_END
 			}
@@ -222,6 +223,16 @@ func appendHTMLString(buf []byte, s string) []byte {
 ESCAPE_END:
 	for j < valLen {
 		c := s[j]
+
+		if c == 0xE2 && j+2 < valLen && s[j+1] == 0x80 && s[j+2]&^1 == 0xA8 {
+			// U+2028 and U+2029 are escaped with HTML escaping, also when UTF-8 is not normalised
+			buf = append(buf, s[i:j]...)
+			buf = append(buf, `\u202`...)
+			buf = append(buf, hex[s[j+2]&0xF])
+			i = j + 3
+			j = j + 3
+			continue
+		}
 
 		if !needEscapeHTML[c] {
 			// fast path: most of the time, printable ascii characters are used
